@@ -103,6 +103,12 @@ func gen(tier string, rng *h.Rng, emit func(string)) {
 		"sc p=query.sys keep=dosnode.recoverSign feed=dosnode.dispatchSign.out:sssc cons=dosnode.recoverSign.out:all;dosnode.recoverSign.errc:all ctl=%s " + recoverOK + " obs=dosnode.dispatchSign.out;dosnode.recoverSign.out;dosnode.recoverSign.errc reps=4",
 		"sc p=query.sys keep=dosnode.recoverSign feed=dosnode.dispatchSign.out:sss cons=dosnode.recoverSign.errc:all ctl=%s " + recoverOK + " obs=dosnode.dispatchSign.out;dosnode.recoverSign.out;dosnode.recoverSign.errc reps=4",
 		"sc p=query.url keep=dosnode.genQueryResult feed=dosnode.choseSubmitter.outs#0:sc cons=- ctl=%s pick=if_err_!=_nil:0 obs=dosnode.genQueryResult.out;dosnode.genQueryResult.errc reps=3",
+		// exchangePub: each exit (cast failure, foreign key, complete set, incomplete set then input closed)
+		"sc p=grouping keep=dkg.exchangePub feed=dkg.fanOut.ch#1:sc;dkg.askMembers.out#0:sc cons=dkg.exchangePub.errc:ctx;dkg.exchangePub.out:ctx ctl=%s pick=range_(data):0;if_!ok:0 obs=dkg.exchangePub.out;dkg.exchangePub.errc reps=3",
+		"sc p=grouping keep=dkg.exchangePub feed=dkg.fanOut.ch#1:sc;dkg.askMembers.out#0:sc cons=- ctl=%s pick=range_(data):0;if_!ok:1;if_pubkey_==_nil:0 obs=dkg.exchangePub.out;dkg.exchangePub.errc reps=3",
+		"sc p=grouping keep=dkg.exchangePub feed=dkg.fanOut.ch#1:sc;dkg.askMembers.out#0:sc cons=dkg.exchangePub.out:n1 ctl=%s pick=range_(data):1;if_len(partPubs)_==_len(groupIds):0 obs=dkg.exchangePub.out;dkg.exchangePub.errc reps=3",
+		"sc p=grouping keep=dkg.exchangePub feed=dkg.fanOut.ch#1:sc;dkg.askMembers.out#0:sc cons=dkg.exchangePub.out:all ctl=%s pick=range_(data):1;if_len(partPubs)_==_len(groupIds):1 obs=dkg.exchangePub.out;dkg.exchangePub.errc reps=3",
+		"sc p=grouping keep=dkg.sendToMembers#0,dkg.sendToMembers.go1#0 feed=dkg.fanOut.ch#0:sc cons=dkg.sendToMembers.errc:all ctl=%s pick=if_err_!=_nil:1 obs=dkg.sendToMembers.errc reps=3",
 		"sc p=grouping keep=dkg.genPub feed=- cons=dkg.genPub.errc:ctx;dkg.genPub.out:ctx ctl=%s pick=if_index_==_-1:0 obs=dkg.genPub.out;dkg.genPub.secrc;dkg.genPub.errc reps=3",
 	}
 	sctl := []string{"go,f0,x,r", "go,x,f0,r", "x,go,f0,r", "f0,go,x,r", "go,f0,r"}
@@ -116,7 +122,10 @@ func gen(tier string, rng *h.Rng, emit func(string)) {
 			if tier == "thorough" {
 				c = sctl[i]
 			}
-			if !strings.Contains(l, "feed=dosnode") {
+			if strings.Contains(l, "feed=dkg.fanOut.ch#1:sc;dkg.askMembers") {
+				c = strings.Replace(c, "f0", "f0,f1", 1) // two inputs: both feeders are started
+			}
+			if !strings.Contains(l, "feed=dosnode") && !strings.Contains(l, "feed=dkg") {
 				c = strings.ReplaceAll(strings.ReplaceAll(c, "f0,", ""), ",f0", "")
 			}
 			emit(fmt.Sprintf(l, c))
@@ -151,6 +160,23 @@ func gen(tier string, rng *h.Rng, emit func(string)) {
 	// every fault once with a cancellation point (directed: not left to the draws below)
 	for i, f := range faults[1:] {
 		emit(fmt.Sprintf("full p=grouping n=3 fault=%s cancel=ev%d reps=1", f, 6+5*i))
+	}
+	// invalid deal / invalid response at pipeline level (a member whose deals / responses are damaged in
+	// transit), a group of five, a group of four with a damaged response and a cancellation point
+	emit("full p=grouping n=3 fault=baddeal:1 cancel=never reps=1")
+	emit("full p=grouping n=3 fault=badresp:2 cancel=never reps=1")
+	emit("full p=grouping n=5 fault=none cancel=never reps=1")
+	emit("full p=grouping n=4 fault=badresp:1 cancel=ev25 reps=1")
+	if tier == "thorough" {
+		all := append(append([]string{}, faults...), "baddeal:0", "baddeal:2", "badresp:0", "badresp:1")
+		for _, f := range all[1:] {
+			for ev := 1; ev <= 30; ev += 2 {
+				emit(fmt.Sprintf("full p=grouping n=3 fault=%s cancel=ev%d reps=1", f, ev))
+			}
+		}
+		emit("full p=grouping n=5 fault=silent:3 cancel=ev20 reps=1")
+		emit("full p=grouping n=5 fault=baddeal:4 cancel=never reps=1")
+		emit("full p=grouping n=4 fault=dropresp:1 cancel=ev18 reps=1")
 	}
 	k := 4
 	if tier == "thorough" {
